@@ -166,7 +166,8 @@ def run_proof(built, proof, workdir, extra_defs=(), trace=False):
         return res
     gi = ['goto-instrument', '--dfcc', 'h_' + name]
     if proof.get('enforce'):
-        gi += ['--enforce-contract', proof['enforce']]
+        # 'rec': a recursive function is checked with its recursive calls replaced by its own contract (induction over the call depth)
+        gi += ['--enforce-contract-rec' if proof.get('rec') else '--enforce-contract', proof['enforce']]
     ctext = open(built['cfile']).read()
     used = [x for x in ([] if proof.get('exec') else getattr(u, 'ALWAYS_REPLACE', [])) if x not in proof.get('no_replace', []) and ctext.count(x + '(') >= (2 if (x + '(') in getattr(u, 'PRELUDE', '') + getattr(u, 'PRELUDE_AFTER_RECORDS', '') else 1)]
     for r in list(proof.get('replace', [])) + used:
